@@ -372,6 +372,9 @@ WRAPPERS = ["try-except", "try-finally", "try-except-else-finally", "try-except-
             "handler-return-then-branch", "try-for-else", "try-while-break"]
 
 
+ASYNC_WRAPPERS = ["try-async-for", "try-stmt-async-for-stmt", "async-for-try", "async-with-try-async-for"]
+
+
 class BigGen:
   """One large function / module body."""
 
@@ -457,6 +460,20 @@ class BigGen:
     if w == "try-while-break":
       return [p + "try:", q + "while True:", q + "  if %s: break" % self.fresh("g")] + B(2) + \
              [p + "except %s:" % self.fresh("E"), q + h]
+    # async-only: the loop header GET_AITER / GET_ANEXT is the FIRST or the LAST thing of a protected range, so the
+    # synthetic SETUP_EXCEPT_311 / POP_BLOCK sit directly next to the opcodes the 3.12 async-for surgery special-cases
+    if w == "try-async-for":
+      return [p + "try:", q + "async for %s in o.%s:" % (self.fresh("v"), self.fresh("a"))] + B(2) + \
+             [p + "except %s:" % self.fresh("E"), q + h]
+    if w == "try-stmt-async-for-stmt":
+      return [p + "try:", q + "%s = 0" % self.fresh("v"), q + "async for %s in o.%s:" % (self.fresh("v"), self.fresh("a"))] + B(2) + \
+             [q + "%s()" % self.fresh("g"), p + "except (%s, %s):" % (self.fresh("E"), self.fresh("E")), q + h, p + "finally:", q + "%s()" % self.fresh("g")]
+    if w == "async-for-try":
+      return [p + "async for %s in o.%s:" % (self.fresh("v"), self.fresh("a")), q + "try:"] + B(2) + \
+             [q + "except %s:" % self.fresh("E"), q + "  " + r.choice(["continue", "break", "pass"])]
+    if w == "async-with-try-async-for":
+      return [p + "async with o.%s as %s:" % (self.fresh("a"), self.fresh("v")), q + "try:",
+              q + "  async for %s in %s:" % (self.fresh("v"), self.fresh("g"))] + B(3) + [q + "finally:", q + "  %s()" % self.fresh("g")]
     raise ValueError(w)
 
   def function(self, name, kind, big, wrappers):
@@ -497,6 +514,8 @@ def big_program(r, big=True):
   k = 0
   for kind in ("plain", "gen", "async"):
     take = ws[k:k + 5] if kind == "plain" else r.sample(WRAPPERS, 3)
+    if kind == "async":
+      take = take + r.sample(ASYNC_WRAPPERS, 2)
     k += 5
     out += g.function("big_%s" % kind, kind, big, take)
     out.append("")
